@@ -161,6 +161,92 @@ pub fn start_sync(threads: usize, gate: Arc<Gate>, bind_addr: SocketAddr, signal
     }
 }
 
+/// Child process `hv worker c20fd <addr>`: with the descriptor limit lowered to 96, idle connections are opened until
+/// no descriptor is left (so `accept` is failing with EMFILE when the signal comes), then the signal is sent.
+/// Exit code 0: `run` returned within 5 s; 3: it did not; 2: the scenario could not be set up.
+#[cfg(not(hvt))]
+pub fn fd_worker(args: &[String]) -> i32 {
+    let addr: SocketAddr = match args.first().and_then(|a| a.parse().ok()) {
+        Some(a) => a,
+        None => return 2,
+    };
+    let lim = libc::rlimit { rlim_cur: 96, rlim_max: 96 };
+    if unsafe { libc::setrlimit(libc::RLIMIT_NOFILE, &lim) } != 0 {
+        return 2;
+    }
+    let gate = Arc::new(Gate { open: Mutex::new(true), cv: Condvar::new(), entered: Mutex::new(0), started: Mutex::new(Default::default()) });
+    let st = start_sync(2, gate, addr, false);
+    let t0 = Instant::now();
+    loop {
+        if TcpStream::connect_timeout(&addr, Duration::from_millis(200)).is_ok() {
+            break;
+        }
+        if t0.elapsed() > Duration::from_secs(5) {
+            return 2;
+        }
+        std::thread::sleep(Duration::from_millis(5));
+    }
+    let mut conns = Vec::new();
+    let mut exhausted = false;
+    for _ in 0..400 {
+        match TcpStream::connect_timeout(&addr, Duration::from_millis(500)) {
+            Ok(s) => conns.push(s),
+            Err(_) => {
+                exhausted = true;
+                break;
+            }
+        }
+    }
+    if !exhausted {
+        return 2;
+    }
+    // let the accept loop run into the limit as well
+    std::thread::sleep(Duration::from_millis(300));
+    (st.signal)();
+    let r = match st.done.recv_timeout(Duration::from_secs(5)) {
+        Ok(_) => 0,
+        Err(_) => 3,
+    };
+    println!("c20fd: {} idle connections held, run returned: {}", conns.len(), r == 0);
+    r
+}
+
+/// parent side of the descriptor-exhaustion scenario
+#[cfg(not(hvt))]
+pub fn fd_exhaustion(k: usize) -> Vec<Fail> {
+    let exe = match std::env::current_exe() {
+        Ok(e) => e,
+        Err(e) => return vec![Fail::new("harness-exe", e.to_string())],
+    };
+    let ip = format!("127.0.20.{}", 200 + k % 40);
+    let port = crate::common::net::free_port(&ip);
+    let mut child = match std::process::Command::new(exe).args(["worker", "c20fd", &format!("{}:{}", ip, port)]).stdout(std::process::Stdio::piped()).stderr(std::process::Stdio::null()).spawn() {
+        Ok(c) => c,
+        Err(e) => return vec![Fail::new("harness-spawn", e.to_string())],
+    };
+    let t0 = Instant::now();
+    loop {
+        match child.try_wait() {
+            Ok(Some(st)) => {
+                return match st.code() {
+                    Some(0) => Vec::new(),
+                    Some(3) => vec![fail!("run-does-not-return:descriptors-exhausted", "with the descriptor limit reached by idle connections (accept failing with EMFILE at the moment of the signal), run did not return within 5 s of the shutdown signal")],
+                    other => vec![Fail::new("harness-fd-scenario", format!("descriptor-exhaustion scenario could not be set up (child exit {:?})", other))],
+                };
+            }
+            Ok(None) => {
+                if t0.elapsed() > Duration::from_secs(30) {
+                    let _ = child.kill();
+                    let _ = child.wait();
+                    return vec![Fail::new("harness-fd-scenario", "descriptor-exhaustion child did not finish within 30 s".to_string())];
+                }
+                std::thread::sleep(Duration::from_millis(20));
+            }
+            Err(e) => return vec![Fail::new("harness-fd-scenario", e.to_string())],
+        }
+    }
+}
+
 #[cfg(not(hvt))]
 pub fn run_scenario(s: &Scenario, shard: usize) -> Vec<Fail> {
     run_scenario2(s, shard, None, &start_sync, 21000)
@@ -466,10 +552,25 @@ pub fn run(ctx: &Ctx) {
             },
         );
     });
+    // "no matter how many connections are idle": so many that the process is out of descriptors and accept fails
+    for k in 0..ctx.tier.pick(2usize, 10usize) {
+        ctx.case(hash_of(&("fd-exhaustion", k)), true, &["descriptors-exhausted-at-signal"]);
+        for f in fd_exhaustion(k) {
+            if f.sig.starts_with("harness-") {
+                ctx.inconclusive(&format!("{}: {}", f.sig, f.detail));
+            } else if !ctx.tolerate(&f) {
+                ctx.violation(f, "fd", json!({"k": k}));
+            }
+        }
+    }
+    ctx.sample("descriptors-exhausted-at-signal", || json!({"scenario": "child process with RLIMIT_NOFILE 96: idle connections until none can be opened, then the signal; run must return within 5 s"}));
 }
 
 #[cfg(not(hvt))]
-pub fn replay(_ctx: &Ctx, _kind: &str, case: &J) -> Vec<Fail> {
+pub fn replay(_ctx: &Ctx, kind: &str, case: &J) -> Vec<Fail> {
+    if kind == "fd" {
+        return fd_exhaustion(case["k"].as_u64().unwrap_or(0) as usize);
+    }
     match serde_json::from_value::<Scenario>(case.clone()) {
         Ok(s) => run_scenario(&s, 15),
         Err(e) => vec![Fail::new("harness", format!("bad replay case: {}", e))],
